@@ -901,3 +901,145 @@ func execC20Overlap(t *testing.T, c C20Overlap) (v Verdict) {
 }
 
 func TestC20Overlap(t *testing.T) { checkProp(t, "C20", "overlap", genC20Overlap, execC20Overlap) }
+
+// ---- C20 send fault: the stats events of a stream whose caller's SendMsg fails in the transport --------------
+
+// C20SendFault: a client-streaming or bidirectional call opens normally; its caller's J-th message is refused by the
+// transport (an error of a drawn kind, the connection otherwise healthy); the caller then receives until the stream
+// reports its end. "Each installed stats handler sees, for every RPC whatever its outcome, exactly one Begin before any
+// other event of that RPC and exactly one End whose error is nil exactly when the RPC succeeded."
+type C20SendFault struct {
+	Kind    int    `json:"kind"`
+	FailJ   int    `json:"fail_j"` // 0 = the first message after the open
+	CStats  int    `json:"cstats"`
+	SStats  int    `json:"sstats"`
+	ErrKind string `json:"err_kind"`
+	Ser     bool   `json:"ser"`
+	Before  int    `json:"before"` // successful RPCs on the connection before this one
+}
+
+func genC20SendFault(t *rapid.T) C20SendFault {
+	return C20SendFault{Kind: rapid.SampledFrom([]int{kit.KindClient, kit.KindBidi}).Draw(t, "kind"), FailJ: rapid.IntRange(0, 3).Draw(t, "fail_j"), CStats: rapid.IntRange(1, 3).Draw(t, "cstats"), SStats: rapid.IntRange(0, 2).Draw(t, "sstats"),
+		ErrKind: rapid.SampledFrom(kit.FaultErrKinds).Draw(t, "err_kind"), Ser: rapid.Bool().Draw(t, "ser"), Before: rapid.IntRange(0, 2).Draw(t, "before")}
+}
+
+func execC20SendFault(t *testing.T, c C20SendFault) (v Verdict) {
+	defer kit.UseFaultKind(c.ErrKind)()
+	var cst, sst []*recStats
+	var sendErr error
+	var end *kit.ErrObs
+	res := kit.Bubble(t, func() {
+		svc := kit.NewSvc()
+		svc.Unary("u", func(ctx context.Context, req []byte) ([]byte, error) { return req, nil })
+		svc.Stream("f", true, c.Kind == kit.KindBidi, func(s grpcServerStream) error {
+			for {
+				if _, err := kit.RecvBytes(s); err != nil {
+					if err == io.EOF {
+						return nil
+					}
+					return err
+				}
+			}
+		})
+		var sopts []goat.ServerOption
+		var dopts []goat.DialOption
+		for i := 0; i < c.SStats; i++ {
+			h := newRecStats(i, false)
+			sst = append(sst, h)
+			sopts = append(sopts, goat.StatsHandler(h))
+		}
+		for i := 0; i < c.CStats; i++ {
+			h := newRecStats(i, true)
+			cst = append(cst, h)
+			dopts = append(dopts, goat.WithStatsHandler(h))
+		}
+		w := kit.NewWorld(kit.Topo{Kind: "direct", Serialize: c.Ser, Clients: 1}, svc, sopts, dopts)
+		l := w.Links[0]
+		marker := []byte{0xFA, 0x17, byte(c.FailJ)}
+		l.A.FailWriteIf(func(r *kit.Rpc) bool { return bytes.Equal(unwrapBytes(r.GetBody().GetData()), marker) })
+		cc := w.CC[0]
+		for i := 0; i < c.Before; i++ {
+			_, _ = kit.Invoke(context.Background(), cc, "u", []byte{byte(i)})
+		}
+		ctx, cancel := context.WithTimeout(context.Background(), time.Hour)
+		defer cancel()
+		cs, err := cc.NewStream(ctx, kit.StreamDescFor(c.Kind), kit.FullMethod("f"))
+		if err != nil {
+			v.failf("open: %v", err)
+			return
+		}
+		for j := 0; j <= c.FailJ; j++ {
+			sendErr = kit.SendBytes(cs, []byte{0xFA, 0x17, byte(j)})
+		}
+		kit.Settle()
+		for k := 0; k < 4; k++ {
+			if _, err := kit.RecvBytes(cs); err != nil {
+				e := kit.Observe(err)
+				end = &e
+				break
+			}
+		}
+		cancel()
+		kit.Settle()
+		w.Shutdown()
+		cc.Close()
+		kit.Settle()
+	})
+	if res.Panic != nil {
+		v.failf("panic: %v\n%s", res.Panic, res.Stack)
+	}
+	if sendErr == nil {
+		v.failf("harness: the send whose transport write was refused reported success")
+	}
+	if end == nil {
+		v.failf("the caller's receives never reported the end of the stream")
+	} else if end.EOF {
+		v.failf("the stream whose caller's message was refused by the transport ended in io.EOF")
+	}
+	for _, h := range cst {
+		h.mu.Lock()
+		ev := h.events[c.Before+1]
+		nb, ne := 0, 0
+		for _, e := range ev {
+			if e == "Begin" {
+				nb++
+			}
+			if e == "End" {
+				ne++
+			}
+		}
+		if nb != 1 || ne != 1 || len(ev) == 0 || ev[0] != "Begin" {
+			v.failf("client stats handler %d: the RPC whose message #%d was refused by the transport (%s) produced events %v, want exactly one Begin, first, and exactly one End", h.idx, c.FailJ, c.ErrKind, ev)
+		} else if h.endErr[c.Before+1][0] == nil {
+			v.failf("client stats handler %d: the RPC did not succeed but End carries a nil error", h.idx)
+		}
+		if len(h.untagged) > 0 {
+			v.failf("client stats handler %d: events without the tag of TagRPC: %v", h.idx, h.untagged)
+		}
+		h.mu.Unlock()
+	}
+	for _, h := range sst {
+		h.mu.Lock()
+		for tag, ev := range h.events {
+			nb, ne := 0, 0
+			for _, e := range ev {
+				if e == "Begin" {
+					nb++
+				}
+				if e == "End" {
+					ne++
+				}
+			}
+			if len(ev) > 0 && (nb != 1 || ne != 1 || ev[0] != "Begin") {
+				v.failf("server stats handler %d: RPC #%d produced events %v, want exactly one Begin, first, and exactly one End", h.idx, tag, ev)
+			}
+		}
+		h.mu.Unlock()
+	}
+	v.Info = kit.CaseInfo{Labels: []string{"send-fault", "sendfault.err=" + c.ErrKind, "sendfault.kind=" + kit.KindNames[c.Kind]}, NonTrivial: true, Key: fmt.Sprintf("%+v", c), Sample: c}
+	return
+}
+
+func TestC20SendFault(t *testing.T) {
+	checkProp(t, "C20", "send-fault", genC20SendFault, execC20SendFault)
+}
